@@ -6,6 +6,8 @@ def recursive : List (String × String) := [("_build.py", "Builder.discover"), (
 
 def introFacts : List (String × Bool) := [("intros_returns_fresh_outputs", true), ("intro_results_from_intros", true), ("intro_uses_intros", true), ("unsafe_cast_writes_fresh", true)]
 
+def converterFacts : List (String × Bool) := [("helper_called_only_on_converter_output", true), ("helper_has_a_caller", true), ("helper_writes_only_its_parameter", true)]
+
 def processDependent : List (String × String × String) := []
 
 end Generated.FrontFacts
